@@ -225,6 +225,10 @@ def add(chk, tier, seed):
             chk.known_finding("F-reprint-nested-ellipsis", "a bracketed ellipsis directly under another ellipsis ('[a...]...') is printed as 'a......' when an adapter builds its elementary-operation string, which the parser rejects")
             continue
         chk.violation("C12.B.elop_text", f"einx.{op}({d!r}, shape={shape}) fails with a SyntaxError: {msg[:160]}", replay={"kind": "case", "case": {"op": op, "description": d, "shape": list(shape)}}, found_input=True)
+    lg = long_generated_text_cases()
+    for ob, s_, detail in lg:
+        chk.violation(ob, detail, replay={"kind": "case", "case": {"string": s_}}, found_input=True)
+    chk.add_bounded("tensors of rank 40-60 and long size vectors (printed and re-parsed internally), under default and narrow numpy print options", "7 calls x 2 print option settings", 14, 14, failures=lg)
     dn = deep_nesting_cases()
     for ob, s_, detail in dn:
         chk.violation(ob, detail, replay={"kind": "case", "case": {"string": s_}}, found_input=True)
@@ -255,6 +259,29 @@ def nested_ellipsis_cases():
         o = harness.outcome(lambda: getattr(einx, op)(d, np.zeros(shape)), 15)
         if o[0] == "exc" and o[1] == "einx.errors.SyntaxError":
             out.append((op, d, shape, o[2]))
+    return out
+
+
+def long_generated_text_cases():
+    """'no operation ever fails with a syntax error about text the caller did not write': shapes and size vectors are printed and re-parsed internally - tensors of rank 38-60 and
+    constraint vectors with many / many-digit entries must not produce such an error (a printer that wraps long lines, abbreviates with '...' or depends on print options would)"""
+    import einx
+    out = []
+    old = np.get_printoptions()
+    try:
+        for opts in ({}, {"threshold": 5, "linewidth": 20}):
+            np.set_printoptions(**opts)
+            cases = [("id", "... -> ...", [np.ones((1,) * 40)], {}), ("id", "... -> ...", [np.ones((1,) * 60)], {}), ("sum", "[...] a", [np.ones((1,) * 45 + (3,))], {}),
+                     ("id", "(a b)... -> a... b...", [np.ones((2,) * 12)], {"b": (1,) * 12}), ("solve_axes", "a...", [np.ones((1,) * 50)], {}),
+                     ("id", "(a b)... -> a... b...", [np.ones((100000, 100000, 100000)[:0] + (6, 6, 6))], {"a": (3, 2, 1)}), ("solve_shapes", "a... b", [None], {"a": tuple(range(10000, 10030)), "b": 123456789})]
+            for op, d, ts, kw in cases:
+                o = harness.outcome(lambda: getattr(einx, op)(d, *ts, **kw), 60)
+                if o[0] == "exc" and o[1] == "einx.errors.SyntaxError":
+                    out.append(("C12.B.quotes_caller_exactly", f"{op} {d!r} rank {getattr(ts[0], 'ndim', None)} print options {opts}", f"einx.{op}({d!r}) on a rank-{getattr(ts[0], 'ndim', '?')} tensor / long size vector fails with a SyntaxError about generated text: {o[2][:120]}"))
+                elif o[0] == "exc" and o[1].split(".")[0] not in ("einx",) and o[1] not in ("builtins.ValueError",):
+                    out.append(("C12.B.total", f"{op} {d!r} print options {opts}", f"einx.{op}({d!r}) on a high-rank tensor escapes with {o[1]}: {o[2][:100]}"))
+    finally:
+        np.set_printoptions(**old)
     return out
 
 
